@@ -118,6 +118,43 @@ pub fn run(ctx: &mut Ctx) {
             hs.push(next_up(q));
             hs.push(next_down(q));
         }
+        // chain: several different thresholds applied one after the other to the SAME value; every
+        // step is judged against the state the value held just before it
+        {
+            let mut chain_hs: Vec<f64> = hs.iter().copied().filter(|h| h.is_finite() && *h > 0.0 && *h < 1.0).collect();
+            rng.shuffle(&mut chain_hs);
+            chain_hs.truncate(3);
+            let mut s = strat.clone();
+            let mut prev = before.clone();
+            let mut steps: Vec<f64> = Vec::new();
+            for h in chain_hs {
+                steps.push(h);
+                let r = catch(|| {
+                    s.truncate(h);
+                    let after = bridge::dense_profile(&game, &flat, &s);
+                    let mut s2 = s.clone();
+                    s2.truncate(h);
+                    (after, bridge::dense_profile(&game, &flat, &s2))
+                });
+                match r {
+                    Ok((Ok(after), Ok(again))) => match check_one(&flat, &prev, &after, &again, h) {
+                        Err((sig, msg)) => {
+                            ctx.violation(idx, &format!("C18:chain:{}", sig), &format!("after truncations {:?} on one value: {} [{} on {}]", steps, msg, src, desc), json!({"game": tree.to_json(), "source": src, "thresholds": steps, "before_last_step": prev}));
+                            return;
+                        }
+                        Ok(_) => {
+                            prev = after;
+                        }
+                    },
+                    Err(msg) => {
+                        ctx.violation(idx, "C18:panic", &format!("chain of truncations {:?} panicked: {} [{} on {}]", steps, msg, src, desc), json!({"game": tree.to_json(), "source": src}));
+                        return;
+                    }
+                    _ => break,
+                }
+            }
+            ctx.count("chains_of_truncations_on_one_value", 1);
+        }
         for h in hs {
             let mut s = strat.clone();
             let r = catch(|| {
@@ -178,7 +215,7 @@ pub fn run(ctx: &mut Ctx) {
         }
     });
     ctx.finish(crate::report::extra(
-        "cases = (game, profile, threshold): G1/G2 games x profiles {solver outputs, truncated solver outputs, injected random/pure/sparse/near-uniform/tiny/skewed} x thresholds {-inf,-1,0,1e-300,0.3,0.5,1,2,+inf,NaN, two random, and q, next_up(q), next_down(q) for up to four probabilities q of the profile}. The dense vectors before/after (hook verif_probs) are judged against the set/renormalisation specification: every infoset stays a distribution; where some action exceeds h exactly those survive, rescaled by their sum; a threshold below every positive probability changes nothing; truncating twice equals once (don't-care when a renormalised value lands within 1e-12 of h); get_info and as_named work on the result. distinct = hash(tree, profile, threshold bits); non-trivial = game has a multi-action infoset.",
+        "cases = (game, profile, threshold) and, per profile, one chain of up to three different thresholds applied in sequence to the same value (each step judged against the state just before it): G1/G2 games x profiles {solver outputs, truncated solver outputs, injected random/pure/sparse/near-uniform/tiny/skewed} x thresholds {-inf,-1,0,1e-300,0.3,0.5,1,2,+inf,NaN, two random, and q, next_up(q), next_down(q) for up to four probabilities q of the profile}. The dense vectors before/after (hook verif_probs) are judged against the set/renormalisation specification: every infoset stays a distribution; where some action exceeds h exactly those survive, rescaled by their sum; a threshold below every positive probability changes nothing; truncating twice equals once (don't-care when a renormalised value lands within 1e-12 of h); get_info and as_named work on the result. distinct = hash(tree, profile, threshold bits); non-trivial = game has a multi-action infoset.",
         &["tolerances: 1e-12 relative on rescaled probabilities, 1e-9 on sums"],
     ));
 }
